@@ -6,6 +6,8 @@ import KlogV.Model.Serialiser
 import KlogV.Model.Tags
 import KlogV.Model.Report
 import KlogV.Model.Commands
+import KlogV.Model.JsonView
+import KlogV.Model.Bookmarks
 open KlogV
 
 def optStr {α} (f : α → String) : Option α → String
@@ -140,8 +142,30 @@ def cmdOf (toks : List String) : Option Cmd :=
     some (.pause (optLines sm) (noTags == "1") (extend == "1") (if ticks == "~" then [] else (ticks.splitOn ",").map String.toInt!))
   | _ => none
 
+def bkOpOf (tok : String) : Option BOp :=
+  match tok.splitOn ":" with
+  | ["set", n, p] => some (.set (decodeGo (bytesOfHex n)) (decodeGo (bytesOfHex p)))
+  | ["unset", n] => some (.unset (decodeGo (bytesOfHex n)))
+  | ["clear"] => some .clear
+  | _ => none
+
+def bkHistory (toks : List String) : String :=
+  let (_, outs) := toks.foldl (fun (acc : Bookmarks × List String) tok =>
+    match bkOpOf tok with
+    | none => (acc.1, acc.2 ++ ["bad"])
+    | some op => match acc.1.apply op with
+      | some bc => (bc, acc.2 ++ ["ok:" ++ hexOrDash (hexOfChars bc.toJson)])
+      | none => (acc.1, acc.2 ++ ["fail"])) ([], [])
+  " ".intercalate outs
+
 def handle (u : UTab) (args : List String) : String :=
   match args with
+  | ["json", h, pretty, file] =>
+    (match toJson u (decodeGo (bytesOfHex file)) (pretty == "1") (parseDoc (bytesOfHex h)) with
+     | some js => "ok " ++ hexOrDash (hexOfChars js)
+     | none => "panic")
+  | "bkhist" :: toks => bkHistory toks
+  | ["newname", h] => "ok " ++ hexOrDash (hexOfChars (newName (decodeGo (bytesOfHex h))))
   | "cmd" :: h :: y :: m :: d :: hh :: mm :: rest =>
     let cfgToks := rest.takeWhile (· != "--")
     let cmdToks := (rest.dropWhile (· != "--")).drop 1
